@@ -8,5 +8,5 @@ pub fn run(ctx: &Ctx) {
     ctx.rule("histories of connect/close/send/burst/disconnect over 4 endpoint ids (several connections per id, V1 and V2) against the real Clients registry over in-memory streams, harness speaks the wire format with its own codec; oracle after every settled step: each delivered batch matches exactly one outstanding send addressed to that id, on the connection that was active when sent, with the sender's authenticated id and identical ecn/segment size/contents; per (sender, destination) delivery order is a subsequence of send order; non-trivial = a delivered send to an id that had >=2 connections");
     ctx.assume("payloads that cannot be forwarded (empty, > 65502 bytes) are generated only in the C05 check; drops are allowed by the statement, duplicates/misdelivery/alteration are not");
     let k = ctx.tier.pick(1, 10);
-    ctx.explore("history", ExploreOpts::new(4_000 * k).shrink(400), || history(Focus::Forwarding, 30), |h| run_history(h, Focus::Forwarding, "C04"));
+    ctx.explore("history", ExploreOpts::new(12_000 * k).shrink(400), || history(Focus::Forwarding, 30), |h| run_history(h, Focus::Forwarding, "C04"));
 }
